@@ -420,7 +420,7 @@ func firstIndex(l []string, s string) int {
 
 func c20MakeSimple(r *run.Run) {
 	r.Explore(explore.Config{Name: "C20.makesimple"},
-		"cff.Outlines.MakeSimple on CID-keyed and simple fonts with all name patterns over the menu (5 glyphs) x glyph-text maps: names valid, distinct, .notdef first, existing valid unique names kept, text-derived names before orn placeholders",
+		"cff.Outlines.MakeSimple on CID-keyed and simple fonts with all name patterns over the menu (5 glyphs) x glyph-text maps (none, nil, short texts with a duplicate, three glyphs sharing a text of 13..17 letters whose derived name crosses the 31-byte limit with or without a suffix): names valid, distinct, identical when asked again, .notdef first, existing valid unique names kept, text-derived names before orn placeholders",
 		func(c *explore.Ctx) {
 			n := 5
 			orig := make([]string, n)
@@ -428,11 +428,16 @@ func c20MakeSimple(r *run.Run) {
 				orig[i] = c20NameMenu[c.Choose(len(c20NameMenu), fmt.Sprintf("name of glyph %d", i))]
 			}
 			text := map[glyph.ID]string{}
-			switch c.Choose(3, "glyph text") {
+			switch k := c.Choose(8, "glyph text"); k {
 			case 1:
 				text = map[glyph.ID]string{1: "A", 2: "A", 3: "fi", 4: "中"}
 			case 2:
 				text = nil
+			case 3, 4, 5, 6, 7:
+				// three glyphs with the same text of 13..17 letters: the derived name A_B_..._N has 25..33 bytes, so
+				// the name itself or the name with a suffix for the second and third glyph crosses the 31-byte limit
+				t := "ABCDEFGHIJKLMNOPQ"[:10+k]
+				text = map[glyph.ID]string{1: t, 2: t, 3: t, 4: "A"}
 			}
 			f2, _ := FontFromChoices(gen.FontOpts{NoMeta: true, NoLayout: true}, 2, 1, 0, 0, 0)
 			base := f2.Outlines.(*cff.Outlines)
@@ -462,6 +467,14 @@ func c20MakeSimple(r *run.Run) {
 			for i, nm := range got {
 				if !names.IsValid(nm) {
 					c.Fail("C20.valid", "MakeSimple", "glyph %d gets the invalid name %q", i, nm)
+				}
+			}
+			// asking again (without text) returns the same names
+			ol.MakeSimple(nil)
+			for i, g := range ol.Glyphs {
+				if g.Name != got[i] {
+					c.Fail("C20.repeatable", "MakeSimple", "glyph %d is called %q after the first call and %q after the second (names %q, text %v)", i, got[i], g.Name, orig, text)
+					break
 				}
 			}
 			if ol.IsCIDKeyed() || ol.ROS != nil || ol.GIDToCID != nil || len(ol.Encoding) != 256 {
